@@ -1013,6 +1013,57 @@ func g8Dispatch(r *Repo, rep *Report) {
 			return true
 		})
 	}
+	// slices.ContainsFunc / slices.IndexFunc over the plugin slice with a prefix test as the predicate is the same walk, front
+	// to back, stopping at the first match
+	walkParams := map[types.Object]bool{}
+	for _, b := range r.bodies() {
+		if b.Pkg.Name != "derive" && b.Pkg.Name != "main" {
+			continue
+		}
+		info := b.Pkg.TypesInfo
+		inspectOwn(b.Block, func(x ast.Node) bool {
+			c, ok := x.(*ast.CallExpr)
+			if !ok || len(c.Args) != 2 {
+				return true
+			}
+			fn, ok := callee(info, c).(*types.Func)
+			if !ok || fn.Pkg() == nil || fn.Pkg().Path() != "slices" || (fn.Name() != "ContainsFunc" && fn.Name() != "IndexFunc") {
+				return true
+			}
+			lit, ok := ast.Unparen(c.Args[1]).(*ast.FuncLit)
+			if !ok || lit.Type.Params.NumFields() != 1 || len(lit.Type.Params.List[0].Names) != 1 {
+				return true
+			}
+			hasTest := nodeHas(lit.Body, func(m ast.Node) bool {
+				hc, ok := m.(*ast.CallExpr)
+				return ok && isPkgFunc(callee(info, hc), "strings", "HasPrefix")
+			})
+			if !hasTest {
+				return true
+			}
+			okOperand := false
+			switch ox := ast.Unparen(c.Args[0]).(type) {
+			case *ast.SelectorExpr:
+				okOperand = ox.Sel.Name == "plugins"
+			case *ast.Ident:
+				if v, ok := info.Uses[ox].(*types.Var); ok && b.Sig != nil {
+					for i := 0; i < b.Sig.Params().Len(); i++ {
+						if b.Sig.Params().At(i) == v {
+							okOperand = true
+						}
+					}
+				}
+			}
+			if !okOperand {
+				rep.fail(Finding{Rule: "G8", Key: "G8|dispatch|" + b.Name + "|operand", Where: []string{r.pos(c.Pos())}, Msg: b.Name + " matches prefixes over " + exprStr(c.Args[0]) + ", which is not the sorted plugin slice"})
+				return true
+			}
+			n++
+			walkParams[info.Defs[lit.Type.Params.List[0].Names[0]]] = true
+			rep.pass("G8")
+			return true
+		})
+	}
 	if n < 2 {
 		rep.fail(Finding{Rule: "G8", Key: "G8|dispatch|vacuity", Kind: "undecided", Msg: fmt.Sprintf("only %d prefix-dispatch loops found (2 confirmed by hand: (*pkg).Add, newPackage)", n)})
 	}
@@ -1050,7 +1101,7 @@ func g8Dispatch(r *Repo, rep *Report) {
 			if !ok || sel.Sel.Name != "GetPrefix" {
 				return true
 			}
-			if id, ok := ast.Unparen(sel.X).(*ast.Ident); ok && rangeVals[info.Uses[id]] {
+			if id, ok := ast.Unparen(sel.X).(*ast.Ident); ok && (rangeVals[info.Uses[id]] || walkParams[info.Uses[id]]) {
 				rep.pass("G8")
 				return true
 			}
@@ -1414,7 +1465,15 @@ func g8PluginOrderFixed(r *Repo, rep *Report) {
 				if !ok || fn.Pkg() == nil || len(x.Args) == 0 {
 					return true
 				}
-				if (fn.Pkg().Path() == "sort" || fn.Pkg().Path() == "slices") && isPluginSlice(x.Args[0]) {
+				mutates := fn.Pkg().Path() == "sort" && !strings.HasPrefix(fn.Name(), "Search") && !strings.Contains(fn.Name(), "AreSorted") && !strings.HasPrefix(fn.Name(), "IsSorted")
+				if fn.Pkg().Path() == "slices" {
+					for _, pre := range []string{"Sort", "Reverse", "Insert", "Delete", "Compact", "Replace"} {
+						if strings.HasPrefix(fn.Name(), pre) {
+							mutates = true
+						}
+					}
+				}
+				if mutates && isPluginSlice(x.Args[0]) {
 					n++
 					rep.fail(Finding{Rule: "G8", Key: "G8|plugin-order|" + b.Name + "|reordered", Where: []string{r.pos(x.Pos())},
 						Msg: b.Name + " reorders a []Plugin (" + exprStr(x.Fun) + "): the slice is the one NewPlugins sorted longest prefix first and that every dispatch walks, so after this call a name with the longer of two nested prefixes can be handed to the plugin with the shorter one"})
